@@ -71,6 +71,10 @@ CHECKS = {
             "All sequential re-entrant histories with up to 3 (thorough 4) scripted subscribers x 1..3 publishes; 1..4 concurrent publishers x 1..4 subscribe/unsubscribe churners with call/return stamps, PRNG yields at the publisher's hook points or a publisher parked between snapshot and delivery; Map chains of depth 1..3 with two subscribers per level; SubscribeOn(h) with 1..4 subscribers and handler capacities 0..2 incl. goroutine identity; the concurrent parts repeated under -race (deciding for publisher.go).",
             "Trusted: the registration-relation rule (before / after / overlapping => 0 or 1); one monotonic clock for the stamps; schedules sampled + two park points.",
             "DESIGN.md section 5, C10"),
+    "C14": ("exploration", "goroutine-local request/answer logs joined by the workload + pairing oracle; hook-point yields; stuck detector; Go race detector",
+            "Hundreds (thorough: thousands) of topologies of 1..8 caller coroutines x 1..12 requests against one target serving exactly the total, three generator shapes, with and without StartWithVal, PRNG yields at the coroutine hook points: every request reaches exactly one YieldRef, the caller of the request taken as step k receives exactly y_k, per-caller order, counts; StartWithVal, DoNotation, YieldFromIO, IsStarted/IsDone; non-termination through the stuck detector; repeated under -race.",
+            "Trusted: unique x/y encodings; logs are read only after a join the effects themselves signal; schedules sampled.",
+            "DESIGN.md section 5, C14"),
 }
 
 NOT_YET = "check not built yet in this session (runtime monitoring applies; see DESIGN.md section 5)"
